@@ -123,10 +123,10 @@ Proof.
 Qed.
 
 Theorem argminmax_dense_proof (maxm kd : bool) (x : coo Z) (axis : option Z) :
-  canonical Z x -> prunedb Z.eqb x = true -> shape_ok (c_shape x) -> (1 <= length (c_shape x))%nat ->
+  canonical Z x -> shape_ok (c_shape x) -> (1 <= length (c_shape x))%nat ->
   res_dense (ss_argminmax maxm x axis kd) = np_argbest_axis maxm (todense x) axis kd.
 Proof.
-  intros Hc Hp Hok Hnd. unfold np_argbest_axis. cbn [todense d_shape d_flat].
+  intros Hc Hok Hnd. unfold np_argbest_axis. cbn [todense d_shape d_flat].
   destruct (argminmax_empty_rejected_proof maxm kd x Hnd) as [Hrej0 Hrej1].
   destruct axis as [axis|].
   - (* an axis *)
@@ -137,7 +137,7 @@ Proof.
       { rewrite (Hrej1 axis a Hn E0). reflexivity. }
       assert (HN : 0 < nth a (c_shape x) 0) by (pose proof (shape_ok_nth _ a Hok); lia).
       destruct (Nat.le_gt_cases 2 (length (c_shape x))) as [H2|H1].
-      * destruct (argminmax_nd_ge2_proof maxm kd x axis a Hc Hp Hok H2 Hn HN) as [z [Ez [Hsh [Hcz Hden]]]].
+      * destruct (argminmax_nd_ge2_proof maxm kd x axis a Hc Hok H2 Hn HN) as [z [Ez [Hsh [Hcz Hden]]]].
         cbv zeta in Hsh, Hden. rewrite Ez. cbn [res_dense]. f_equal.
         set (rs := remove_nth (c_shape x) a) in *.
         assert (Hlrs : (a <= length rs)%nat) by (unfold rs; rewrite remove_nth_length by assumption; lia).
@@ -157,7 +157,7 @@ Proof.
         { unfold NpSort.norm_axis, ndimZ, zlen in Hn. cbn [c_shape length] in Hn.
           destruct (Z.leb_spec (- Z.of_nat 1) axis); [|discriminate].
           destruct (Z.ltb_spec axis (Z.of_nat 1)); [|discriminate]. lia. }
-        destruct (argminmax_1d_proof maxm kd n axis cs data fill Hax HN Hc Hp) as [z [Ez [Hsh [Hcz Hden]]]].
+        destruct (argminmax_1d_proof maxm kd n axis cs data fill Hax HN Hc) as [z [Ez [Hsh [Hcz Hden]]]].
         rewrite Ez. cbn [res_dense]. f_equal. unfold todense, tabulate. rewrite Hsh.
         change (replace_nth [n] 0 1) with [1]. change (remove_nth [n] 0) with (@nil Z).
         change (all_indices [1]) with [[0]]. cbn [map].
@@ -172,7 +172,7 @@ Proof.
     destruct (Z.eqb_spec (size (c_shape x)) 0) as [E0|E0].
     { rewrite (Hrej0 E0). reflexivity. }
     assert (HS : 0 < size (c_shape x)) by (pose proof (size_nonneg _ Hok); lia).
-    destruct (argminmax_none_proof maxm kd x Hc Hp Hok Hnd HS) as [z [Ez [Hsh [Hcz Hden]]]].
+    destruct (argminmax_none_proof maxm kd x Hc Hok Hnd HS) as [z [Ez [Hsh [Hcz Hden]]]].
     cbv zeta in Hsh, Hden. rewrite Ez. cbn [res_dense]. f_equal. unfold todense, tabulate. rewrite Hsh.
     rewrite map_const_ones.
     assert (Hflat : map (den x) (all_indices (c_shape x))
